@@ -10,8 +10,12 @@
          table  span -> interned rendering  filled by the harness from the
          crate's own payload decoders (verif::decode_with) for every accepted
          substring of the stream; events are compared by interned code.
-   Utf8  the standalone Utf8Decoder: chunking independence of its outputs only
-         (its machine is modelled under C02).
+   Utf8  the standalone Utf8Decoder (chars as code points, IT c []; errors as RW []): the model is
+         the machine of Decoder/Events.v (u8_feed, proved chunking independent and total under
+         C02); the specification is declarative: from the current position take the shortest
+         prefix on which UTF8DFA stops (dead or accepting, searched with Tokenizer.first_stop);
+         accepting = a character if the assembled code is a scalar value, otherwise an error that
+         consumes the prefix INCLUDING the byte that killed it (decoder.rs:121-127).
 
    Every case lists several runs of the same stream under different partitions
    into reads (chunk lengths) with the tokens the implementation produced.
@@ -20,7 +24,8 @@
    computed from the specification `munch` only): the implementation's tokens
    under every partition are the leftmost-longest tokenisation of the stream. *)
 From Coq Require Import List NArith Arith Bool.
-From SNT Require Export Base.Outcome Base.Report Automata.DfaData Automata.Tokenizer Gen.ProdDFA.
+From SNT Require Export Base.Outcome Base.Report Automata.DfaData Automata.Tokenizer Gen.ProdDFA
+  Decoder.Payload Decoder.Events Automata.Regex.
 Import ListNotations.
 Local Open Scope N_scope.
 
@@ -45,8 +50,10 @@ Definition out_eqb (a b : out) : bool :=
 Definition run_rec := (list nat * out)%type.
 
 Inductive c03_case :=
-| Gen (d : dfa_data) (input : list N) (runs : list run_rec)
+| Gen (pats : list (regex * bool * bool)) (d : dfa_data) (input : list N) (runs : list run_rec)
+      (* the patterns: regular expression (Automata/Regex.v), registered as literal item, decoder rejects odd-length matches *)
 | Prod (which : N) (input : list N) (table : list (list N * option N)) (runs : list run_rec)
+       (steps : option (list nat))   (* reader position after each decode() that returned an event, whole stream in one reader *)
 | Utf8 (input : list N) (runs : list run_rec).
 
 Fixpoint split_by (cuts : list nat) (s : list N) : list (list N) :=
@@ -80,12 +87,63 @@ Section Inst.
       forallb (fun r : run_rec => cuts_ok (fst r) input && out_eqb spec (snd r)) runs ).
 End Inst.
 
-(* Gen: items are (pattern index, matched bytes); patterns registered as literal items carry no bytes *)
-Definition gen_item (d : dfa) (q : N) (buf : list N) : option (N * list N) :=
+(* Reader positions.  `decode` is called on one reader holding the whole stream until it returns
+   None; after each returned event the reader position is recorded.  This makes the bytes consumed by
+   ITEMS observable (their spans are not part of the events): model = the `rest` returned by the
+   model's decode; specification = from `munch`: token k starting at offset o_k is decided when the
+   automaton stops, first_stop bytes after o_k, and bytes already read are never read again. *)
+Definition olist_eqb (a b : option (list nat)) : bool :=
+  match a, b with
+  | Some x, Some y => list_eqb Nat.eqb x y
+  | None, None => true
+  | _, _ => false
+  end.
+
+Section Steps.
+  Variable d : dfa.
+  Context {Item : Type}.
+  Variable decode_item : N -> list N -> option Item.
+
+  Fixpoint model_steps_aux (fuel : nat) (s : st N Item) (input : list N) (total : nat) : option (list nat) :=
+    match fuel with
+    | O => None
+    | S f =>
+        match decode N Item (d_start d) (d_delta d) (d_accepting d) (d_terminal d) decode_item s input with
+        | Ok (s', Some _, rest) =>
+            match model_steps_aux f s' rest total with
+            | Some l => Some ((total - length rest)%nat :: l)
+            | None => None
+            end
+        | Ok (_, None, _) => Some []
+        | _ => None
+        end
+    end.
+  Definition model_steps (input : list N) : option (list nat) :=
+    model_steps_aux (length input + 3) (init (d_start d)) input (length input).
+
+  Fixpoint spec_steps_aux (toks : list (tok Item)) (s : list N) (off prev : nat) : list nat :=
+    match toks with
+    | [] => []
+    | t :: r =>
+        let n := match first_stop N (d_start d) (d_delta d) (d_accepting d) (d_terminal d) s with
+                 | Some n => n | None => O end in
+        let p := Nat.max prev (off + n) in
+        p :: spec_steps_aux r (skipn (length (span t)) s) (off + length (span t)) p
+    end.
+  Definition spec_steps (input : list N) : list nat :=
+    spec_steps_aux (fst (munch N Item (d_start d) (d_delta d) (d_accepting d) (d_terminal d) decode_item input))
+                   input 0 0.
+End Steps.
+
+(* Gen: items are (pattern index, matched bytes); patterns registered as literal items carry no bytes;
+   a pattern may be registered with a decoder that rejects matches of odd length *)
+Definition rejects_of (pats : list (regex * bool * bool)) (i : N) : bool :=
+  match nth_error pats (N.to_nat i) with Some (_, _, r) => r | None => false end.
+Definition gen_item (pats : list (regex * bool * bool)) (d : dfa) (q : N) (buf : list N) : option (N * list N) :=
   match d_tag d q with
   | Some (true, k) => Some (k, [])
-  | Some (false, i) => Some (i, buf)
-  | None => None
+  | Some (false, i) => if rejects_of pats i && Nat.odd (length buf) then None else Some (i, buf)
+  | None => None        (* the code panics here; excluded by `tagged_ok` in the check *)
   end.
 Definition gen_render (t : tok (N * list N)) : itok :=
   match t with
@@ -112,6 +170,81 @@ Definition prod_render (t : tok N) : itok :=
   | TRaw sp => RW sp
   end.
 
+(* ---- Gen at the level of the LANGUAGES of the patterns (Automata/Regex.v, verified matcher of C15) ----
+   For each emitted token, with the bytes it stands for (offsets from the spans of `munch`):
+   an item of pattern i: pattern i matches the span; no pattern of higher priority (literal items
+   by index, then matchers by index: the order of BTreeSet<MatcherTag>) matches it; NO pattern matches
+   any longer prefix of the remaining stream; a matcher pattern returns exactly the span;
+   a raw token: either no pattern matches any non-empty prefix of the remaining stream, or the span is
+   the longest match and the highest-priority pattern matching it rejects it (odd length). *)
+Definition spans_of (d : dfa) {Item} (decode_item : N -> list N -> option Item) (input : list N) : list (list N) :=
+  map span (fst (munch N Item (d_start d) (d_delta d) (d_accepting d) (d_terminal d) decode_item input)).
+
+Definition pat_matches (pats : list (regex * bool * bool)) (s : list N) : list N :=
+  (* indices of the patterns matching s, in priority order *)
+  let idx := map N.of_nat (seq 0 (length pats)) in
+  let m (want_item : bool) :=
+    filter (fun i => match nth_error pats (N.to_nat i) with
+                     | Some (e, it, _) => Bool.eqb it want_item && matcher e s
+                     | None => false
+                     end) idx in
+  m true ++ m false.
+
+Definition no_longer_match (pats : list (regex * bool * bool)) (rest : list N) (k : nat) : bool :=
+  forallb (fun j => match pat_matches pats (firstn j rest) with [] => true | _ => false end)
+          (seq (S k) (length rest - k)).
+
+Fixpoint lang_tokens (pats : list (regex * bool * bool)) (spans : list (list N)) (rest : list N) (toks : list itok) : bool :=
+  match spans, toks with
+  | [], [] => true
+  | sp :: spans', t :: toks' =>
+      let k := length sp in
+      nlist_eqb (firstn k rest) sp
+      && no_longer_match pats rest k
+      && match pat_matches pats sp, t with
+         | [], RW b => nlist_eqb b sp
+         | i :: _, RW b => nlist_eqb b sp && rejects_of pats i && Nat.odd k
+                           && match nth_error pats (N.to_nat i) with Some (_, false, _) => true | _ => false end
+         | i :: _, IT j b =>
+             (i =? j)
+             && match nth_error pats (N.to_nat i) with
+                | Some (_, true, _) => match b with [] => true | _ => false end
+                | Some (_, false, r) => nlist_eqb b sp && negb (r && Nat.odd k)
+                | None => false
+                end
+         | [], IT _ _ => false
+         end
+      && lang_tokens pats spans' (skipn k rest) toks'
+  | _, _ => false
+  end.
+
+Definition lang_ok (pats : list (regex * bool * bool)) (spans : list (list N)) (input : list N) (o : out) : bool :=
+  match o with Some toks => lang_tokens pats spans input toks | None => false end.
+
+(* Utf8Decoder: model and specification *)
+Definition u8_render (x : uout) : itok := match x with UChar c => IT c [] | UErr => RW [] end.
+Definition u8_model_run (input : list N) (cuts : list nat) : out :=
+  match u8_feed utf8_dfa (u8_init utf8_dfa) (split_by cuts input) with
+  | Ok (xs, _) => Some (map u8_render xs)
+  | _ => None
+  end.
+Fixpoint u8_spec (fuel : nat) (s : list N) : list itok :=
+  match fuel with
+  | O => []
+  | S f =>
+      (* every accepting state of UTF8DFA ends a character: `terminal` := accepting *)
+      match first_stop N (d_start utf8_dfa) (d_delta utf8_dfa) (d_accepting utf8_dfa) (d_accepting utf8_dfa) s with
+      | None => []
+      | Some n =>
+          (if dead_at N (d_start utf8_dfa) (d_delta utf8_dfa) s n then RW []
+           else match utf8_decode (firstn n s) with
+                | Ok (Some c) => IT c []
+                | _ => RW []
+                end)
+          :: u8_spec f (skipn n s)
+      end
+  end.
+
 Definition all_equal (runs : list run_rec) : bool :=
   match runs with
   | [] => true
@@ -120,17 +253,21 @@ Definition all_equal (runs : list run_rec) : bool :=
 
 Definition c03_check (c : c03_case) : bool * bool :=
   match c with
-  | Gen dd input runs =>
+  | Gen pats dd input runs =>
       let d := compile dd in
-      let '(a, h) := check_runs d (gen_item d) gen_render input runs in
-      (data_ok dd && a, h)
-  | Prod which input table runs =>
+      let '(a, h) := check_runs d (gen_item pats d) gen_render input runs in
+      (* an accepting state without a tag makes the code panic (`expect`): never with these dumps *)
+      (data_ok dd && tagged_ok d && a,
+       h && forallb (fun r : run_rec => lang_ok pats (spans_of d (gen_item pats d) input) input (snd r)) runs)
+  | Prod which input table runs steps =>
       let d := if which =? 0 then event_dfa else command_dfa in
-      check_runs d (prod_item table) prod_render input runs
+      let '(a, h) := check_runs d (prod_item table) prod_render input runs in
+      (a && olist_eqb (model_steps d (prod_item table) input) steps,
+       h && olist_eqb (Some (spec_steps d (prod_item table) input)) steps)
   | Utf8 input runs =>
-      let ok := forallb (fun r : run_rec => cuts_ok (fst r) input && match snd r with Some _ => true | None => false end) runs
-                && all_equal runs in
-      (ok, ok)
+      ( forallb (fun r : run_rec => out_eqb (u8_model_run input (fst r)) (snd r)) runs,
+        let spec := Some (u8_spec (length input) input) in
+        forallb (fun r : run_rec => cuts_ok (fst r) input && out_eqb spec (snd r)) runs )
   end.
 
 Definition c03_report := report c03_check.
